@@ -392,6 +392,10 @@ func (iv *inverter) compute(t *Term) string {
 		}
 	}
 	abs, known := iv.m.ts[t]
+	if !known && t.op == OpVar {
+		// a model that travelled with a work item is keyed by input name
+		abs, known = iv.m.str[t.name]
+	}
 	// structured by a stub? (structure wins over an accidental equality with a literal)
 	if f := iv.factFor("fields", t); f != nil {
 		if f.n == 0 {
